@@ -229,7 +229,7 @@ pub fn project(p: DVec3, dim: usize) -> DVec3 {
 
 pub const ASPECTS: [[f64; 3]; 4] = [[1., 1., 1.], [1., 0.37, 2.9], [30., 4.6, 0.29], [1., 100., 0.01]];
 pub const SCALES: [f64; 5] = [1., 1., 1e-3, 1e3, 7.3e5];
-pub const OFFSETS: [[f64; 3]; 4] = [[0., 0., 0.], [-0.5, -0.5, -0.5], [3.3, -7.1, 11.9], [1e3, -1e3, 1e2]];
+pub const OFFSETS: [[f64; 3]; 5] = [[0., 0., 0.], [-0.5, -0.5, -0.5], [3.3, -7.1, 11.9], [1e3, -1e3, 1e2], [1e5, 1e5, -1e5]];
 
 #[derive(Clone, Copy, Debug)]
 pub struct BoxShape {
@@ -527,7 +527,13 @@ pub fn gen_case(label: &str, tier: &str, seed: u64, k: u64, o: &GenOpts) -> Case
     }
     let dim = *r.pick(o.dims);
     let periodic = o.periodic.unwrap_or_else(|| r.bool());
-    let b = if o.mild_box { mild_box(&mut r) } else { random_box(&mut r) };
+    let mut b = if o.mild_box { mild_box(&mut r) } else { random_box(&mut r) };
+    // The far offset (1e5 widths) is part of the conditioned domain only for the families that are clean there on the
+    // pinned tree; coplanar sets and clusters at that offset fail (finding F5) and live in the fixed hostile corpus.
+    let far_ok = matches!(family, "uniform" | "lattice" | "clattice" | "blattice" | "tiny");
+    while !far_ok && (b.anchor / b.width).abs().max_element() > 2e3 {
+        b = if o.mild_box { mild_box(&mut r) } else { random_box(&mut r) };
+    }
     let n = *r.pick(o.sizes);
     let unit = unit_points(family, n, dim, &mut r);
     finish(family, unit, b, dim, periodic, format!("{label}/{tier}/seed{seed}/case{k}"))
